@@ -31,6 +31,9 @@ type Opts struct {
 	UnitPrice   bool   // validator-share and delegator-share prices fixed to 1 (keeps structural queries linear)
 	Unbonding   int64  // staking unbonding time in ns (0 => symbolic 1s..10y)
 	BlockTime   *time.Time
+	BigPool     bool // the rewards pool holds more than any entitlement (keeps pool-shortage forks out of harnesses that are not about solvency)
+	History2    bool // reward histories exist for two reward denoms, in first-seen (non-alphabetical) order: stake, then aaaaa
+	TwoRewards  bool // pending distribution rewards come in two denoms and the validators have no reward history yet
 	DustVal     bool // validator 2 holds a remainder of validator shares of denom 0 but no delegation (it was fully exited)
 	Params      bool // symbolic take-rate clock (interval, last claim time); else default params, clock = block time
 }
@@ -105,14 +108,27 @@ func Build(ps []Pos, o Opts) *State {
 			e.Stk.SetDelegationRaw(mod, Vals[v], stakingtypes.NewDelegation(mod.String(), Vals[v].String(), math.LegacyNewDecFromInt(m)))
 			pend := nd.IntRange("pend_"+n, "0", Pow30)
 			if !pend.IsZero() {
-				e.Distr.Allocate(mod, Vals[v], sdk.Coins{sdk.Coin{Denom: env.BondDenom, Amount: pend}})
+				coins := sdk.Coins{sdk.Coin{Denom: env.BondDenom, Amount: pend}}
+				if o.TwoRewards {
+					// sorted: "aaaaa" < "stake"
+					coins = sdk.Coins{sdk.Coin{Denom: DustDenom, Amount: nd.IntRange("pend2_"+n, "1", Pow30)}, sdk.Coin{Denom: env.BondDenom, Amount: pend}}
+				}
+				e.Distr.Allocate(mod, Vals[v], coins)
 			}
 		} else {
 			NewValidator(e, Vals[v], stakingtypes.Bonded, tok, math.LegacyNewDecFromInt(tok))
 		}
 	}
 	if o.Rewards {
-		e.Bank.Fund(e.Ak.GetModuleAddress(types.RewardsPoolName), env.BondDenom, nd.IntRange("pool", "0", Pow30+"000000"))
+		if o.BigPool {
+			big, _ := math.NewIntFromString(Pow30 + Pow30 + "000000")
+			e.Bank.Fund(e.Ak.GetModuleAddress(types.RewardsPoolName), env.BondDenom, big)
+		} else {
+			e.Bank.Fund(e.Ak.GetModuleAddress(types.RewardsPoolName), env.BondDenom, nd.IntRange("pool", "0", Pow30+"000000"))
+		}
+		if o.History2 {
+			e.Bank.Fund(e.Ak.GetModuleAddress(types.RewardsPoolName), DustDenom, nd.IntRange("pool2", "0", Pow30+"000000"))
+		}
 	}
 	maxShares := o.MaxTok + Pow18
 	for a := 0; a < o.NDenoms; a++ {
@@ -183,10 +199,15 @@ func Build(ps []Pos, o Opts) *State {
 			}
 			info.TotalDelegatorShares = sdk.DecCoins(info.TotalDelegatorShares).Add(sdk.NewDecCoinFromDec(denom, tds))
 			info.ValidatorShares = sdk.DecCoins(info.ValidatorShares).Add(sdk.NewDecCoinFromDec(denom, vs))
-			if o.Rewards {
+			if o.Rewards && !o.TwoRewards {
 				info.GlobalRewardHistory = append(info.GlobalRewardHistory, types.RewardHistory{
 					Denom: env.BondDenom, Alliance: denom, Index: nd.DecRange("gidx_"+vn+an, "0", Pow12),
 				})
+				if o.History2 {
+					info.GlobalRewardHistory = append(info.GlobalRewardHistory, types.RewardHistory{
+						Denom: DustDenom, Alliance: denom, Index: nd.DecRange("gidx2_"+vn+an, "0", Pow12),
+					})
+				}
 			}
 			if err := e.K.SetValidatorInfo(e.Ctx, Vals[v], info); err != nil {
 				panic(err)
@@ -239,7 +260,7 @@ func Build(ps []Pos, o Opts) *State {
 			}
 			h := gh
 			if o.Rewards {
-				h.Index = nd.DecRange("didx_"+p.name(), "0", Pow12)
+				h.Index = nd.DecRange("didx_"+gh.Denom[:1]+p.name(), "0", Pow12)
 				nd.Assume(h.Index.LTE(gh.Index))
 			}
 			d.RewardHistory = append(d.RewardHistory, h)
